@@ -140,3 +140,47 @@ def run(ctx: Context) -> None:  # noqa: F811
     _core_run(ctx)
     ctx.rep.rule("C12.R6", "connection-wide failure fields are set only for Exceptions (a caller's own cancellation never fails the other streams)")
     _sticky_only_connection_failures(ctx)
+
+
+def _stream_id_reserved_atomically(ctx: Context) -> None:
+    """h2's `get_next_available_stream_id()` does not reserve the id: the counter only advances in `send_headers()`.  Between
+    the two there must be no suspension point (async tree) - otherwise a second request scheduled in the gap is given the
+    same id, overwrites the first one's event queue, and the two streams destroy each other (KeyError / protocol error / a
+    response that is never delivered)."""
+    rep = ctx.rep
+    for tree, N in trees(ctx):
+        if tree != "async":
+            continue
+        h2c = N.cls("http2", "AsyncHTTP2Connection")
+        f = h2c.methods["handle_async_request"]
+        g = h2c.methods["_send_request_headers"]
+        cfg = ctx.cfg(f)
+        alloc = [n for n in cfg.nodes if node_calls(n, lambda c: norm(c.func) == "self._h2_state.get_next_available_stream_id")]
+        call = [n for n in cfg.nodes if node_calls(n, lambda c: norm(c.func) == "self._send_request_headers")]
+        if not alloc or not call:
+            raise AnalysisError("anchor vanished: stream id allocation / _send_request_headers call in the HTTP/2 request routine")
+        r1 = cfg.reachable([e.dst for e in alloc[0].succ if e.kind != "exc"], follow=lambda e: e.kind != "exc", stop=lambda n: n is call[0])
+        between = [n for n in cfg.nodes if n.id in r1 and n is not call[0] and n.may_cancel()]
+        # inside the callee: nothing suspends before h2.send_headers
+        cfg2 = ctx.cfg(g)
+        snd = [n for n in cfg2.nodes if node_calls(n, lambda c: norm(c.func) == "self._h2_state.send_headers")]
+        inner = [n for n in cfg2.nodes if snd and n is not snd[0] and n.may_cancel() and not cfg2.dominates(snd[0], n)] if snd else []
+        ok = not between and bool(snd) and not inner
+        rep.ob("C12.R7", fkey(tree, f, "stream-id-reserved-atomically"), ok, where(f, (between[0].ast if between else alloc[0].ast)),
+               "no suspension point between get_next_available_stream_id() and h2's send_headers()" if ok else
+               f"suspension point `{(between or inner)[0].text()}` lies between get_next_available_stream_id() and send_headers(): h2 reserves the id only in send_headers(), so a request "
+               "scheduled in the gap receives the SAME stream id and overwrites this stream's event queue",
+               [n.text() for n in (between + inner)[:4]])
+
+
+_core_run4 = run
+
+
+def run(ctx: Context) -> None:  # noqa: F811
+    _core_run4(ctx)
+    ctx.rep.rule("C12.R7", "a stream id is reserved atomically: no suspension between get_next_available_stream_id() and h2's send_headers()")
+    _stream_id_reserved_atomically(ctx)
+    from .c09 import pending_visible_to_idle_transition
+
+    ctx.rep.rule('C12.R8', 'a request waiting for a stream slot is visible to the IDLE transition: it waits for a stream to end rather than fail (shared with C09.R8)')
+    pending_visible_to_idle_transition(ctx, 'C12.R8')
